@@ -30,7 +30,7 @@ func init() {
 				Rule: "(a) deterministic runs: buffer sizes 2..64 and a few large ones, streams whose number of distinct values is below, at and far above the size, every value repeated 1..4 times in interleaved order, Reset at random points; after EVERY Add: Count == exact number of distinct values while fewer than size distinct values have been added since creation/Reset, Len <= size, Count == Len * 2^j with j an integer that never decreases until Reset; after Reset: Len == 0, Count == 0 and the exact regime again. " +
 					"(b) statistical configurations (size, D): sizes 8, 16, 64 with D below, 10x and 100x the size using R = 4000 (40000 thorough) independent seeded counters each, sizes 4, 5, 6 with D = 48 and 600 using R = 200000 (larger R because the estimator is more skewed there), sizes 64..256 with enough distinct values for many halving rounds, and scripted streams that sit just above capacity with the zero value of the element type at the critical position (first Add after the buffer fills, first Add overall, back-to-back repeats), and streams counted after a Reset that followed a long run far above capacity; the fixed stream repeats every value 1..3 times, interleaved; |mean(Count) - D| <= 7 * sd/sqrt(R) + 0.002 * D. (c) natively seeded counters (the reseeding hook is not used: NewCounter's own seeding is part of what is monitored): 20 000..140 000 counters per configuration on one stream, mean test as above, and no lag L at which run r and run r+L agree at all of 8 checkpoints for 99 % of 300+ pairs (independence of repeated runs). (d) scripted coin flips (hook VerifSetSource): counters taken through up to 60 halving rounds in a few thousand Adds, deterministic clauses checked after every Add. Sizes 2 and 3 get the deterministic clauses only (estimator too heavy-tailed for a CLT-based tolerance). " +
 					"All randomness derives from VERIF_SEED. distinct = hash(size, stream, seed) of deterministic runs + one per statistical configuration; non-trivial = the run went above capacity (at least one halving)",
-				Required:     []string{"deterministic_runs", "adds_checked", "exact_regime_checks", "halvings_observed", "resets", "statistical_configs", "statistical_runs", "runs_with_repeats_above_capacity", "resets_on_empty_buffer", "natively_seeded_runs", "scripted_coin_runs"},
+				Required:     []string{"deterministic_runs", "adds_checked", "exact_regime_checks", "halvings_observed", "resets", "statistical_configs", "statistical_runs", "runs_with_repeats_above_capacity", "resets_on_empty_buffer", "natively_seeded_runs", "scripted_coin_runs", "very_large_buffer_runs"},
 				Assumptions:  []string{"CLT tolerance: 7 sample standard errors + 0.2 % of D; measured skewness is reported in the evidence (|skew| * 343 / (6 sqrt(R)) stays below 1, so the normal tail 2.6e-12 is off by a small factor only)", "the hook distinct.VerifReseed only replaces the random source of a counter built by NewCounter"},
 				CoverPkgs:    []string{"github.com/creachadair/mds/distinct"},
 				CoverAnchors: []string{"distinct/distinct.go:NewCounter", "distinct/distinct.go:Add", "distinct/distinct.go:Count", "distinct/distinct.go:Len", "distinct/distinct.go:Reset"},
@@ -413,6 +413,35 @@ func runC19(c *fw.Ctx) {
 		if !ok {
 			c.FailKind("panic", map[string]any{"phase": "deterministic run"}, "panic: %v\n%s", pv, stack)
 		}
+	}
+	// very large buffers (beyond 2^19 elements): a single run is precise enough
+	// there (relative standard error about 1/sqrt(size)); natively seeded
+	if c.Block < 4 && c.Begin(1<<23+c.Block) {
+		size := []int{524289, 700000, 1048577, 300000}[c.Block]
+		D := 2*size + 12345
+		ok, pv, stack := fw.Try(func() {
+			ctr := distinct.NewCounter[int](size)
+			for v := 0; v < D; v++ {
+				ctr.Add(v)
+				if v < size-1 && v%65536 == 0 && (ctr.Count() != uint64(v+1) || ctr.Len() != v+1) {
+					c.Fail(map[string]any{"size": size}, "exact regime: after %d distinct values Count=%d Len=%d", v+1, ctr.Count(), ctr.Len())
+					return
+				}
+				if v%1000003 == 0 {
+					c.Step()
+				}
+			}
+			got := float64(ctr.Count())
+			rel := math.Abs(got-float64(D)) / float64(D)
+			tol := 9 / math.Sqrt(float64(size)) // nine single-run standard errors: about 1 %
+			if ctr.Len() > size || rel > tol {
+				c.Fail(map[string]any{"size": size, "distinct_values": D}, "one run with a buffer of %d: Count=%d for %d distinct values (off by %.2f %%, tolerance %.2f %%), Len=%d", size, ctr.Count(), D, 100*rel, 100*tol, ctr.Len())
+			}
+		})
+		if !ok {
+			c.FailKind("panic", map[string]any{"size": size}, "panic: %v\n%s", pv, stack)
+		}
+		c.Add("very_large_buffer_runs", 1)
 	}
 	R := c.Pick(4000, 40000)
 	Rs := c.Pick(200000, 1000000)
